@@ -173,11 +173,11 @@ Proof.
 Qed.
 
 (* the same through the converted value: a numeral given as str for an int element is read as the int it denotes
-   (int(), as the library does), a canonical ISO string given for a datetime element as that datetime *)
+   (int(), as the library does), an ISO 8601 string (Dates.parse_iso_any) given for a datetime element as that datetime *)
 Definition as_native (c : fieldcfg) (v : value) : value :=
   match f_ptype c, v with
   | PTInt, VStr s => match py_int s with Some z => VInt z | None => v end
-  | PTDate, VStr s => match parse_iso s with Some d => VDate d | None => v end
+  | PTDate, VStr s => match parse_iso_any s with Some d => VDate d | None => v end
   | _, _ => v
   end.
 
@@ -198,7 +198,7 @@ Proof.
     destruct (py_int s) as [z|]; [|discriminate H]. split; [exact H|reflexivity].
   - split; [exact H|]. destruct v; reflexivity.
   - destruct v as [s|z|b|d]; try (split; [exact H|reflexivity]).
-    destruct (parse_iso s) as [d|]; [|discriminate H]. split; [exact H|reflexivity].
+    destruct (parse_iso_any s) as [d|]; [|discriminate H]. split; [exact H|reflexivity].
 Qed.
 
 Lemma iw_bind_ok : forall (A B : Type) (r : result A) (f : A -> result B) (b : B),
